@@ -14,10 +14,10 @@
 
 #define MAXH 64
 #define MAXF 8
-#define MAXP 4096
+#define MAXP 16384
 #define NHANDLERS 8
 
-typedef struct { char tok[16]; m_mod_t *mod; } handle_t;
+typedef struct { char tok[16]; m_mod_t *mod; int owned; /* the harness holds an extra reference */ int userref; /* the reference m_mod_register() handed out is still held */ int gone; /* no reference left: never touched again */ } handle_t;
 typedef struct { m_evt_t *ev[128]; int n; } frame_t;   /* the events of the innermost on_evt invocation (for `stash`) */
 
 /* All state of one running script.  One instance per process in the ordinary harness; one per script thread in
@@ -30,11 +30,14 @@ typedef struct {
     const script_t *S_; int cur_;          /* script cursor shared by all nesting levels */
     m_ctx_t *g_ctx_;                       /* recorded from pthread_setspecific */
     int pipe_r_[256], pipe_w_[256], npipes_;
+    int dup_fd_[32], dup_of_[32], ndups_;  /* descriptors the library duplicated (M_SRC_DUP) and the pool index they came from */
     int g_errno_leave_;
     int g_foreign_;                        /* a foreign-thread call is in progress: results are printed without the dump */
     int in_blocking_loop_, empty_polls_, loop_polls_;
     frame_t *FR_[64]; int nfr_;
     pthread_t g_main_thread_;
+    int leak_deferred_;                    /* `leakcheck` was read inside a callback: done when the script ends */
+    int fd_base_;                          /* open descriptors right after the pool was set up */
     FILE *out_;                            /* where this script's output lines go */
     int index_;                            /* position of the script thread (descriptor pool numbers depend on it) */
 } hstate_t;
@@ -53,6 +56,9 @@ static __thread int t_alien;               /* set in helper threads that play "a
 #define pipe_r (T->pipe_r_)
 #define pipe_w (T->pipe_w_)
 #define npipes (T->npipes_)
+#define dup_fd (T->dup_fd_)
+#define dup_of (T->dup_of_)
+#define ndups (T->ndups_)
 #define g_errno_leave (T->g_errno_leave_)
 #define g_foreign (T->g_foreign_)
 #define in_blocking_loop (T->in_blocking_loop_)
@@ -67,11 +73,19 @@ static const char *htok(const m_mod_t *m) {
     for (int i = 0; i < nh; i++) if (H[i].mod == m) return H[i].tok;
     return "?";
 }
-static m_mod_t *hmod(const char *tok) {
-    for (int i = 0; i < nh; i++) if (!strcmp(H[i].tok, tok)) return H[i].mod;
+static handle_t *hent(const char *tok) {
+    for (int i = 0; i < nh; i++) if (!strcmp(H[i].tok, tok)) return &H[i];
     return NULL;
 }
-static int fd_index(int fd) { for (int i = 0; i < MAXF; i++) if (FDR[i] == fd) return i; return -1; }
+static m_mod_t *hmod(const char *tok) {
+    handle_t *h = hent(tok);
+    return h && !h->gone ? h->mod : NULL;
+}
+static int fd_index(int fd) {
+    for (int i = 0; i < MAXF; i++) if (FDR[i] == fd) return i;
+    for (int i = 0; i < ndups; i++) if (dup_fd[i] == fd) return 100 + dup_of[i];   /* a duplicate made by the library */
+    return -1;
+}
 static int pay_index(const void *p) { if (!p) return 0; for (int i = 1; i < MAXP; i++) if (PAY[i] == p) return i; return -1; }
 
 /* ---- interposition ---- */
@@ -89,9 +103,19 @@ int __wrap_pipe(int fd[2]) {
     if (r == 0 && npipes < 256) { pipe_r[npipes] = fd[0]; pipe_w[npipes] = fd[1]; npipes++; }
     return r;
 }
+int __real_dup(int fd);
+int __wrap_dup(int fd) {
+    int r = __real_dup(fd);
+    if (t_alien) return r;
+    int k = -1;
+    for (int i = 0; i < MAXF; i++) if (FDR[i] == fd) k = i;
+    if (r >= 0 && k >= 0 && ndups < 32) { dup_fd[ndups] = r; dup_of[ndups] = k; ndups++; }
+    return r;
+}
 int __real_close(int fd);
 int __wrap_close(int fd) {
     if (t_alien) return __real_close(fd);
+    for (int i = 0; i < ndups; i++) if (dup_fd[i] == fd) { printf("close dup:%d\n", dup_of[i]); dup_fd[i] = -1; return __real_close(fd); }
     for (int i = 0; i < npipes; i++) {
         if (pipe_r[i] == fd) { printf("close pipe-r\n"); pipe_r[i] = -1; return __real_close(fd); }
         if (pipe_w[i] == fd) { printf("close pipe-w\n"); pipe_w[i] = -1; return __real_close(fd); }
@@ -138,13 +162,36 @@ int __wrap_poll_wait(poll_priv_t *priv, const int timeout) {
     return n;
 }
 
-/* ---- allocator hook: payload frees are observable ---- */
-static void *my_malloc(size_t n) { return malloc(n); }
-static void *my_calloc(size_t a, size_t b) { return calloc(a, b); }
+/* ---- allocator hook: payload frees are observable; blocks the library allocated are counted (leak check) ---- */
+#define LSET (1 << 16)
+static void *lset[LSET]; static long live_blocks;
+static pthread_mutex_t lset_lock = PTHREAD_MUTEX_INITIALIZER;
+static void lset_add(void *p) {
+    if (!p) return;
+    pthread_mutex_lock(&lset_lock);
+    size_t i = ((uintptr_t)p >> 4) & (LSET - 1);
+    for (int n = 0; n < LSET; n++, i = (i + 1) & (LSET - 1)) if (!lset[i] || lset[i] == (void *)1) { lset[i] = p; live_blocks++; break; }
+    pthread_mutex_unlock(&lset_lock);
+}
+static void lset_del(void *p) {
+    if (!p) return;
+    pthread_mutex_lock(&lset_lock);
+    size_t i = ((uintptr_t)p >> 4) & (LSET - 1);
+    for (int n = 0; n < LSET && lset[i]; n++, i = (i + 1) & (LSET - 1)) if (lset[i] == p) { lset[i] = (void *)1; live_blocks--; break; }
+    pthread_mutex_unlock(&lset_lock);
+}
+static void *my_malloc(size_t n) { void *p = malloc(n); lset_add(p); return p; }
+static void *my_calloc(size_t a, size_t b) { void *p = calloc(a, b); lset_add(p); return p; }
 static void my_free(void *p) {
     int i = pay_index(p);
     if (p && i > 0) { printf("free p%d\n", i); PAY[i] = NULL; }
+    lset_del(p);
     free(p);
+}
+static int open_fds(void) {
+    int n = 0;
+    for (int fd = 0; fd < 1024; fd++) if (fcntl(fd, F_GETFD) != -1) n++;
+    return n;
 }
 
 /* ---- state dump ---- */
@@ -159,12 +206,12 @@ static void dump(void) {
                 g_ctx->finalized ? ",fin" : "", g_ctx->stats.running_modules);
     for (int i = 0; i < nh; i++) {
         m_mod_t *m = H[i].mod;
-        if (m->state == M_MOD_ZOMBIE) { printf(" %s:Z", H[i].tok); continue; }
+        if (H[i].gone || m->state == M_MOD_ZOMBIE) { printf(" %s:Z", H[i].tok); continue; }
         long ns = 0;
         for (int k = M_SRC_TYPE_FD; k < M_SRC_TYPE_END; k++) ns += qlen(m_bst_len(m->srcs[k]));
         long nsub = m->subscriptions ? qlen(m_map_len(m->subscriptions)) : 0;
         char bl[32]; if (m->batch.len == SIZE_MAX) snprintf(bl, sizeof bl, "inf"); else snprintf(bl, sizeof bl, "%zu", m->batch.len);
-        char tk[32]; if (m->tb.rate == 0) snprintf(tk, sizeof tk, "-"); else snprintf(tk, sizeof tk, "%llu", (unsigned long long)m->tb.tokens);
+        char tk[32]; if (m->tb.timer.ns == 0) snprintf(tk, sizeof tk, "-"); else snprintf(tk, sizeof tk, "%llu", (unsigned long long)m->tb.tokens);
         printf(" %s:%c:p%d:s%ld:u%ld:b%s/%ld:st%ld:r%ld:tk%s", H[i].tok, stl(m), m->pubsub_fd[1] != -1, ns, nsub, bl,
                qlen(m_queue_len(m->batch.events)), qlen(m_queue_len(m->stashed)), qlen(m_stack_len(m->recvs)), tk);
     }
@@ -175,11 +222,13 @@ static void result(long code) { printf("= %ld\n", code); if (!g_foreign) dump();
 /* ---- script interpreter ---- */
 static int exec_line(const char *line);   /* returns 1 for `ret 1`, 0 for `ret 0`, -1 otherwise */
 static void foreign_call(int with_ctx, const char *rest);
+static void leakcheck(void);
 static void xtell_call(m_mod_t *m, const char *name, int pill);
 
 /* run nested lines until `ret`; exhausted script == ret true */
 static bool callback_body(void) {
     while (cur < S->nlines) {
+        if (!strcmp(S->lines[cur], "leakcheck")) { cur++; T->leak_deferred_ = 1; return true; }
         int r = exec_line(S->lines[cur++]);
         if (r >= 0) { if (g_errno_leave >= 0) { errno = g_errno_leave; g_errno_leave = -1; } return r; }
     }
@@ -254,10 +303,36 @@ static int exec_line(const char *line) {
         if (strchr(t[4], 'e')) hook.on_eval = cb_eval;
         m_mod_t *ref = NULL;
         int r = m_mod_register(t[2], &ref, &hook, fl, NULL);
-        if (r == 0 && nh < MAXH) { snprintf(H[nh].tok, sizeof H[nh].tok, "%s", t[1]); H[nh].mod = ref; nh++; m_mem_ref(ref); }
+        if (r == 0 && nh < MAXH) { snprintf(H[nh].tok, sizeof H[nh].tok, "%s", t[1]); H[nh].mod = ref; H[nh].owned = 1; H[nh].userref = 1; H[nh].gone = 0; nh++; m_mem_ref(ref); }
         result(r); return -1;
     }
-    if (!strcmp(t[0], "dereg") && n == 2) { NEEDH(1, m); m_mod_t *tmp = m; result(m_mod_deregister(&tmp)); return -1; }
+    if (!strcmp(t[0], "dereg") && n == 2) {
+        NEEDH(1, m); m_mod_t *tmp = m; handle_t *he = hent(t[1]);
+        int r = m_mod_deregister(&tmp);
+        /* the call consumed the user's reference: without the extra one nothing keeps the object alive for us */
+        if (r == 0 && he) he->userref = 0;
+        if (r == 0 && he && !he->owned) he->gone = 1;
+        result(r); return -1;
+    }
+    if (!strcmp(t[0], "unref") && n == 2) {
+        /* the user drops the extra reference it took with m_mod_ref(); a ZOMBIE may be freed by this */
+        handle_t *he = hent(t[1]);
+        if (!he) { printf("bad-handle\n"); return -1; }
+        if (he->owned && !he->gone) { he->owned = 0; if (!he->userref) he->gone = 1; m_mem_unref(he->mod); }
+        result(0); return -1;
+    }
+    if (!strcmp(t[0], "leakcheck")) { leakcheck(); return -1; }
+    if (!strcmp(t[0], "burst") && n == 6) {
+        /* many tells in a row (more than a pipe holds): prints how many were accepted */
+        NEEDH(1, m); NEEDH(2, r);
+        int p0 = (int)idnum(t[3]), af = atoi(t[4]), cnt = atoi(t[5]), okc = 0;
+        if (p0 <= 0 || cnt < 0 || p0 + cnt >= MAXP) { printf("bad-op\n"); return -1; }
+        for (int i = 0; i < cnt; i++) {
+            if (!PAY[p0 + i]) { PAY[p0 + i] = malloc(8); PAYAF[p0 + i] = af; }
+            if (m_mod_ps_tell(m, r, PAY[p0 + i], af ? M_PS_AUTOFREE : 0) == 0) okc++;
+        }
+        result(okc); return -1;
+    }
     if (!strcmp(t[0], "start") && n == 2) { NEEDH(1, m); result(m_mod_start(m)); return -1; }
     if (!strcmp(t[0], "pause") && n == 2) { NEEDH(1, m); result(m_mod_pause(m)); return -1; }
     if (!strcmp(t[0], "resume") && n == 2) { NEEDH(1, m); result(m_mod_resume(m)); return -1; }
@@ -295,6 +370,9 @@ static int exec_line(const char *line) {
         m_src_flags fl = prio_flags(t[3]);
         if (strchr(t[3], 'o')) fl |= M_SRC_ONESHOT;
         if (strchr(t[3], 'a')) fl |= M_SRC_FD_AUTOCLOSE;
+        if (strchr(t[3], 'd')) fl |= M_SRC_DUP;
+        /* f6, f7 are regular files, which the poll set refuses: only meaningful on a RUNNING module */
+        if (k >= 6 && m->state != M_MOD_RUNNING) { printf("bad-op\n"); return -1; }
         result(m_mod_src_register_fd(m, k >= 0 && k < MAXF ? FDR[k] : -1, fl, (void *)(intptr_t)idnum(t[4]))); return -1;
     }
     if (!strcmp(t[0], "dereg_fd") && n == 3) { NEEDH(1, m); int k = (int)idnum(t[2]); result(m_mod_src_deregister_fd(m, k >= 0 && k < MAXF ? FDR[k] : -1)); return -1; }
@@ -377,19 +455,48 @@ static void xtell_call(m_mod_t *m, const char *name, int pill) {
 }
 
 static void run_script(const script_t *s) {
-    S = s; cur = 0; nh = 0; nfr = 0; npipes = 0; g_ctx = NULL; g_main_thread = pthread_self(); g_errno_leave = -1;
+    S = s; cur = 0; nh = 0; nfr = 0; npipes = 0; ndups = 0; g_ctx = NULL; g_main_thread = pthread_self(); g_errno_leave = -1;
 #ifndef HARNESS_MULTI
     m_set_memhook(my_malloc, my_calloc, my_free);
 #endif
     /* user descriptor pool at fixed numbers, so that their order is the order of their ids */
     for (int k = 0; k < MAXF; k++) {
         int p[2];
+        if (k >= 6) {
+            /* regular files: epoll refuses them (EPERM) */
+            char path[64]; snprintf(path, sizeof path, "/tmp/lmverif_%d_%d_%d", (int)getpid(), T->index_, k);
+            int fd = open(path, O_RDWR | O_CREAT, 0600); unlink(path);
+            FDR[k] = dup2(fd, 200 + 32 * T->index_ + 2 * k); FDW[k] = -1; __real_close(fd);
+            continue;
+        }
         if (__real_pipe(p) != 0) { FDR[k] = FDW[k] = -1; continue; }
         FDR[k] = dup2(p[0], 200 + 32 * T->index_ + 2 * k); FDW[k] = dup2(p[1], 201 + 32 * T->index_ + 2 * k);
         __real_close(p[0]); __real_close(p[1]);
         fcntl(FDR[k], F_SETFL, O_NONBLOCK); fcntl(FDW[k], F_SETFL, O_NONBLOCK);
     }
+    T->fd_base_ = open_fds();
+    T->leak_deferred_ = 0;
     while (cur < s->nlines) exec_line(s->lines[cur++]);
+    if (T->leak_deferred_) leakcheck();
+}
+
+/* after a complete teardown (no context left on this thread) and with every user reference dropped, nothing the library
+ * allocated and no descriptor it opened may be left; before that the numbers mean nothing and are not printed */
+static void leakcheck(void) {
+    if (g_ctx) { printf("LEAKCHECK skipped\n"); return; }
+    for (int i = 0; i < nh; i++) if (!H[i].gone) {
+        /* the reference handed out by m_mod_register() (consumed only by the user's own m_mod_deregister()) and the extra one */
+        if (H[i].userref) { H[i].userref = 0; m_mem_unref(H[i].mod); }
+        if (H[i].owned) { H[i].owned = 0; m_mem_unref(H[i].mod); }
+        H[i].gone = 1;
+    }
+    int closed_by_lib = 0;
+    for (int k = 0; k < MAXF; k++) if (FDR[k] == -1) closed_by_lib++;
+#ifdef HARNESS_MULTI
+    printf("LEAKCHECK skipped\n");     /* the counters are per process */
+#else
+    printf("LEAKCHECK live=%ld fds=%d\n", live_blocks, open_fds() - (T->fd_base_ - closed_by_lib));
+#endif
 }
 
 #ifndef HARNESS_MULTI
